@@ -13,7 +13,10 @@ What is enumerated (real TCPServer / ProtocolWrapper / H11Protocol / H2Protocol 
   byte string (so the further traffic is in the same read as the opening, starts a later read, or the
   cut falls inside the opening), "3way" every pair of split points, "bytes" one byte per read.  Bytes a
   conforming client can only send after the server's answer (the WebSocket frame) form a second
-  *stage* that always starts a new read.
+  *stage* that always starts a new read and is only written once the client has seen the 101;
+* "switch"/gated: the applications wait on a gate before answering, the reads are cut at the switch point
+  (end of the opening request / preface) and one byte either side, and Explorer A interleaves the gate
+  releases with the reads (also mid-flight), so that trailing bytes arrive while stream 1 is still open.
 
 Oracle clauses:
   selection        application scopes (type, http_version, path) differ from the reference selection rule
@@ -30,42 +33,47 @@ from typing import Any, Dict, List, Optional
 from mc.clients import OP_TEXT, h1_request, h2_request_headers, ws_frame, ws_h1_handshake
 from mc.explore import V
 from mc.harness import client_view, norm_msg
-from mc.x_c01c02c13_lib import (choose_cuts, h2_script_bytes, h2c_settings_header, make_execute, make_xclient,
-                                paced_app_factory, segments)
+from mc.x_c01c02c13_lib import (choose_cuts, h2_script_bytes, h2c_settings_header, lattice, make_execute,
+                                make_xclient, paced_app_factory, segments)
 
 ID = "C13"
 LEVEL = "model_checking"
 TECHNIQUE = ("bounded exhaustive enumeration of connection openings x every segmentation of the client's byte string "
              "(data choice points, fully enumerated) on the real TCPServer/ProtocolWrapper/H11/H2 code; reference "
              "selection rule + independent client parsers + metamorphic comparison with the unsplit delivery")
-RULE = ("scenario = engine x opening x segmentation mode; one execution per split point (2way), per pair of split points "
-        "(3way), one-byte reads; non-trivial = an application instance ran and a non-default split was chosen; distinct "
-        "by digest of the normalised observation (scopes, delivered bodies, sends, parsed client view, close state)")
+RULE = ("scenario = engine x opening x segmentation mode x application pacing; one execution per split point (2way), per "
+        "pair of split points (3way), one-byte reads, and - with gated applications - per interleaving of gate releases "
+        "with the reads around the switch point; non-trivial = an application instance ran and a non-default "
+        "split/interleaving was chosen; distinct by digest of the normalised observation (scopes, delivered bodies, "
+        "sends, parsed client view, close state) + body message sizes + delivery points relative to the reads")
 ASSUMPTIONS = [
     "environment model (fake transport/stream, virtual loop) is bound to real sockets by ./check selftest",
     "ALPN is read from a fake ssl_object; real TLS is outside",
-    "each segment is handed to the server at quiescence (one network read each)",
+    "each segment is handed to the server at quiescence (one network read each); mid-flight only in the gated scenarios",
     "a WebSocket client sends frames only after the handshake response (RFC 6455 4.1), so the frame starts a later read",
     "an h2c client may send its preface right behind the upgrade request (the property's 'same or later reads')",
     "the not-base64 HTTP2-Settings opening is judged by split-independence only",
 ]
-BOUNDS_DOC = {"quick": "every 2-way split and one-byte reads of every opening; every 3-way split of the 3 shortest",
-              "thorough": "every 3-way split of every opening"}
+BOUNDS_DOC = {"quick": "every 2-way split and one-byte reads of every opening; every 3-way split of the 3 shortest; "
+                       "gated applications with cuts at the switch point +-1: M<=1,S<=2",
+              "thorough": "every 3-way split of every opening; gated: M<=2,S<=3"}
 BUDGET = {"quick": 100, "thorough": 1500}
 
 OK = [(b"content-length", b"2")]
 
 
-def _resp(tag: bytes) -> List[tuple]:
-    return [("recv_body",), ("send", {"type": "http.response.start", "status": 200, "headers": OK}),
-            ("send", {"type": "http.response.body", "body": tag, "more_body": False})]
+def _resp(tag: bytes, gated: bool) -> List[tuple]:
+    return ([("gate", "g")] if gated else []) + [
+        ("recv_body",), ("send", {"type": "http.response.start", "status": 200, "headers": OK}),
+        ("send", {"type": "http.response.body", "body": tag, "more_body": False})]
 
 
-APPS: Dict[str, list] = {
-    "http:/r1": _resp(b"r1"), "http:/r2": _resp(b"r2"),
-    "websocket": [("recv",), ("send", {"type": "websocket.accept"}), ("recv",),
-                  ("send", {"type": "websocket.send", "text": "pong"}), ("recv_until_disconnect",)],
-}
+def apps(gated: bool) -> Dict[str, list]:
+    return {
+        "http:/r1": _resp(b"r1", gated), "http:/r2": _resp(b"r2", gated),
+        "websocket": [("recv",), ("send", {"type": "websocket.accept"})] + ([("gate", "g")] if gated else []) + [
+            ("recv",), ("send", {"type": "websocket.send", "text": "pong"}), ("recv_until_disconnect",)],
+    }
 
 H2_TWO = [("headers", 1, h2_request_headers(b"GET", b"/r1"), True),
           ("headers", 3, h2_request_headers(b"POST", b"/r2"), False), ("datan", 3, b"hel", False), ("datan", 3, b"lo", True)]
@@ -152,19 +160,31 @@ def scenarios(tier: str) -> List[Any]:
     three = by_len[:3] if tier == "quick" else by_len
     for engine in ("asyncio", "trio"):
         for name in OPENINGS:
-            out.append((engine, name, "2way"))
-            out.append((engine, name, "bytes"))
+            out.append((engine, name, "2way", "eager"))
+            out.append((engine, name, "bytes", "eager"))
             if name in three:
-                out.append((engine, name, "3way"))
+                out.append((engine, name, "3way", "eager"))
+            out.append((engine, name, "switch", "gated"))
     return out
 
 
 def bounds(tier: str, params: Any) -> dict:
-    return {"M": 0, "S": 0, "R": 0}
+    if params[3] != "gated":
+        return {"M": 0, "S": 0, "R": 0}
+    return {"M": 1, "S": 2, "R": 0} if tier == "quick" else {"M": 2, "S": 3, "R": 0}
+
+
+def switch_point(name: str) -> int:
+    """Offset at which the opening request ends and the further traffic starts."""
+    op = OPENINGS[name]
+    data = b"".join(stages_of(op))
+    if op["conn"]["carrier"] in ("h2", "h2pk"):
+        return 24  # the 24-byte connection preface
+    return data.index(b"\r\n\r\n") + 4 + (5 if b"Content-Length: 5" in data[:data.index(b"\r\n\r\n")] else 0)
 
 
 def scenario_for(params: Any, cuts: Any) -> tuple:
-    engine, name, mode = params
+    engine, name, mode, pace = params
     op = OPENINGS[name]
     stages = stages_of(op)
     data = b"".join(stages)
@@ -172,15 +192,28 @@ def scenario_for(params: Any, cuts: Any) -> tuple:
     for s in stages[:-1]:
         off += len(s)
         forced.append(off)
-    events = [("data", 0, seg) for seg in segments(data, cuts, forced)]
+    events = []
+    pos = 0
+    for seg in segments(data, cuts, forced):
+        # bytes of a later stage can only be written by a client that has seen the server's 101
+        events.append(("data", 0, seg) if not forced or pos < forced[0] else ("cmd", 0, "after101", seg))
+        pos += len(seg)
+    gated = pace == "gated"
+    sources = [("client", events)]
+    if gated:
+        sources.append(("app", [("release", "g")] * 3))
     sc = {"level": "conn", "conns": {0: dict(op["conn"])}, "client_factory": make_xclient,
-          "app_factory": paced_app_factory(APPS), "config": {"keep_alive_timeout": 5},
-          "sources": [("client", events)], "midflight": False, "sigs": False}
+          "app_factory": paced_app_factory(apps(gated)), "config": {"keep_alive_timeout": 5},
+          "sources": sources, "midflight": gated, "sigs": gated}
     return engine, sc, {"n_client": len(events)}
 
 
 def plan(params: Any, chooser: Any) -> tuple:
-    cuts = choose_cuts(chooser, LENGTHS[params[1]], params[2])
+    if params[2] == "switch":  # cut at the protocol switch point, one byte before and one byte after it
+        mode: Any = ("list", lattice([switch_point(params[1])], LENGTHS[params[1]])[1:])
+    else:
+        mode = params[2]
+    cuts = choose_cuts(chooser, LENGTHS[params[1]], mode)
     return scenario_for(params, cuts)
 
 
@@ -196,7 +229,7 @@ def normalised(w: Any) -> tuple:
                       i.scope.get("scheme"), body, finals, other, tuple((norm_msg(s[2]), s[3]) for s in i.sends), i.outcome))
     rec = w.conns[0]
     return (tuple(insts), client_view(rec), rec.handler, rec.closed_at is not None, rec.server_eof_at is not None,
-            tuple(sorted((a[2], a[3], a[4]) for a in w.access)))
+            tuple(sorted(((a[2], a[3], a[4]) for a in w.access), key=repr)))
 
 
 _BASE: Dict[Any, tuple] = {}
@@ -208,7 +241,7 @@ def baseline(params: Any) -> tuple:
         from mc.core import Chooser
         from mc.x_c01c02c13_lib import run_world
 
-        engine, sc, _ = scenario_for(params, ())
+        engine, sc, _ = scenario_for((params[0], params[1], "one", "eager"), ())
         _BASE[key] = normalised(run_world(engine, sc, Chooser([])))
     return _BASE[key]
 
@@ -219,14 +252,15 @@ def _diff(a: tuple, b: tuple) -> str:
 
 
 def oracle(w: Any, params: Any, ctx: Any) -> List[dict]:
-    engine, name, mode = params
+    engine, name, mode, pace = params
     op = OPENINGS[name]
     out: List[dict] = []
     obs = normalised(w)
     base = baseline(params)
     if obs != base:
+        reads = [len(e[-1]) if e[0] != "release" else e[0] for _, e in w.driver.fired]
         out.append(V("split-dependence", f"{name}:{_diff(obs, base)}",
-                     f"events={[len(e[2]) for _, e in w.driver.fired]} split: {repr(obs)[:220]} unsplit: {repr(base)[:220]}"))
+                     f"events={reads} split: {repr(obs)[:220]} unsplit: {repr(base)[:220]}"))
     exp = op["expect"]
     if exp is None:
         return out
@@ -276,8 +310,9 @@ def oracle(w: Any, params: Any, ctx: Any) -> List[dict]:
 
 def observe(w: Any, params: Any, ctx: Any) -> Any:
     # message segmentation seen by the application is part of the outcome digest (not of the metamorphic oracle)
+    marks = tuple(tuple(d for _, what, d in i.log if what == "recv-at") for i in w.instances) if params[3] == "gated" else ()
     return (normalised(w), tuple(tuple(len(bytes(m.get("body", b""))) for m in i.delivered() if m["type"] == "http.request")
-                                 for i in w.instances))
+                                 for i in w.instances), marks)
 
 
 execute = make_execute(plan, oracle, observe)
